@@ -54,6 +54,7 @@ RULE = (
     "types per family: string/integer/float-numeric/boolean/datetime/binary/json, random arguments) through the real impl.compare_type, no database; "
     "non-trivial = cross-family pair no synonym group joins, distinct by (dialect, type texts).  Live stream: "
     "settings: compare_type / compare_server_default = True (50%), callables that always answer None (25%), callables answering False on ~20% of the columns and, for the changed column, True or suppressing the change (25%); "
+    "plus the compound change 'remove a table that remaining tables reference, with the foreign keys pointing to it (and optionally their columns)'; "
     "random base schema (as in C06) x one candidate of each of the 15 mutation kinds applicable to it (random object); compare_type and "
     "compare_server_default on; 20% of bases leave the proved class. Non-trivial = every evaluated (base, mutation); distinct by (kind, op list)"
 )
@@ -110,7 +111,7 @@ def classify(failure):
             return "C07-T1"
         if ("op:add_fk" in tags or "op:remove_fk" in tags) and "fk-default-schema" in tags:
             return "C07-MAINFK"
-    if kind == "missed" and ("mut:dropFK" in tags or "mut:addFK" in tags) and "fk-default-schema" in tags:
+    if kind == "missed" and ("mut:dropFK" in tags or "mut:addFK" in tags or "mut:dropTableRefs" in tags) and "fk-default-schema" in tags:
         return "C07-MAINFK"
     if kind == "missed" and "mut:changeDefault" in tags:
         if any(t in tags for t in ("old-default:str-nonplain", "new-default:str-nonplain")):
@@ -158,6 +159,14 @@ def apply_descriptor(a, m):
         return s
     if k == "dropTable":
         s["tables"] = [t for t in s["tables"] if t["name"] != m["t"]]
+        return s
+    if k == "dropTableRefs":
+        s["tables"] = [t for t in s["tables"] if t["name"] != m["t"]]
+        for t in s["tables"]:
+            gone = {c for g in t["fks"] if g["reftable"] == m["t"] for c in g["cols"]}
+            t["fks"] = [g for g in t["fks"] if g["reftable"] != m["t"]]
+            if m.get("dropCols"):
+                t["cols"] = [c for c in t["cols"] if c["name"] not in gone]
         return s
     t = next(t for t in s["tables"] if t["name"] == m["t"])
     col = lambda: next(c for c in t["cols"] if c["name"] == m["c"])
